@@ -19,6 +19,7 @@ static void common_setup(const char* prop)
 {
     rt_init();
     VM.prop = prop;
+    VM.packet_checks = (int)vs_param("packet_checks", 1);
     P_N = (int)vs_param("n", 3);
     P_STREAMS = (int)vs_param("streams", 1);
     P_CLIENT = (int)vs_param("client", CL_NONE);
